@@ -7,13 +7,14 @@ def run(ctx):
     ctx.clause = ("no null compiled regex reaches regex::match, and a suppression whose regular expression does not "
                   "compile never reaches the matching functions (parser gate), so an invalid pattern cannot silently "
                   "widen what a suppression hides")
-    ctx.rules = ["R-RXNULL", "R-RXVALID/G1-G4", "R-RXPRES", "R-MEMOKEY"]
+    ctx.rules = ["R-RXNULL", "R-RXVALID/G1-G4", "R-RXPRES", "R-MEMOKEY", "R-BINGATE"]
     P = ctx.program(None)
     n = nr.rxnull(ctx, P)
     ctx.floor("R-RXNULL", "regex::match call sites", n, 40)
     rxpres_rule.run(ctx, P)
     # memoised results in the suppression machinery (one suppression object is evaluated against every diff node)
-    from rules import memokey_rule
+    from rules import memokey_rule, bingate_rule
+    bingate_rule.check(ctx, P)
     sf = [f for f in P.all_funcs() if f.q.startswith("abigail::suppr::") or "suppression" in (f.cls or "")]
     k = memokey_rule.check(ctx, P, sf)
     ctx.floor("R-MEMOKEY", "lazy caches in the suppression classes", k, 10)
